@@ -23,7 +23,7 @@ def main():
                 fired[k] = v + ("" if r["tier"] == "quick" else " [%s]" % r["tier"])
             silent.update(r["silent"])
         silent -= set(fired)
-        caught = ", ".join("%s (%s)" % (k, v) for k, v in sorted(fired.items())) or ("not chased: judged outside the quantifier (see `first_run` in meta.json)" if m.get("judged_outside_quantifier") else "**missed**")
+        caught = ", ".join("%s (%s)" % (k, v) for k, v in sorted(fired.items())) or ("not chased: out of reach of any workload (see `first_run` in meta.json)" if m.get("out_of_reach") else "not chased: judged outside the quantifier (see `first_run` in meta.json)" if m.get("judged_outside_quantifier") else "**missed**")
         if silent:
             caught += "; silent: " + " ".join(sorted(silent))
         print("| `%s` | %s | %s | %s |" % (name, m["property"], m.get("needs", ""), caught))
